@@ -38,7 +38,7 @@ func makeJail(base string) (jail, dest string) {
 
 // extractReplay is everything needed to re-run one extraction case without rapid.
 type extractReplay struct {
-	Part     string      `json:"part"` // "extract"
+	Part     string      `json:"part"`              // "extract"
 	Spec     ArchiveSpec `json:"spec"`              // rendered against the jail of each execution (absolute names are re-rooted there)
 	Archive  []byte      `json:"archive,omitempty"` // raw bytes instead of a spec (native fuzz findings)
 	Well     bool        `json:"wellformed"`
